@@ -19,6 +19,9 @@ ASSUMPTIONS = [
     'tie to /repo: translator/gen_service.py (constants and structural facts of services.py, regenerated every run; '
     'Proofs/ServiceGlue.v) and the differential correspondence of lib_step against the real Service/Cache with fake '
     'provider clients attached from outside (own providers.json in the run data directory, sqlite cache file)',
+    'the shared HTTP layer (BaseClient.request: status handling, JSON decoding, transport exceptions) is NOT in the model: '
+    'it is exercised with the repository\'s own blockstream / mempool / blocksmurfer client classes over a scripted '
+    'requests.get/post (status x body kind per provider) and judged by the independent oracle check_http only; '
     'partial: real HTTP/timeouts are a Raise outcome; sqlite/SQLAlchemy and the wall clock are runtime (clock patched '
     'in the adapter; expiry is modelled with an explicit clock); provider names are distinct (keys of providers.json)',
     'address-index transactions have one input and one observed output (optionally a foreign output in front); rows '
@@ -39,7 +42,10 @@ RULE = ('all outcome assignments {ok, exception, AttributeError, False, malforme
         'block, spends/change, unconfirmed tail, refused transactions) x warm cache from one answer then every after_txid '
         'position and limits below/at/above the count under every provider failure pattern; paged fills; growing chain '
         'with providers of different views; getutxos with a partly filled cache; single transactions filed first; cache '
-        'off / min_providers 2; a case is non-trivial when its first query step returns a value; distinct by request')
+        'off / min_providers 2; HTTP layer: two or three real client classes, first provider every status of {200,201,202,203,'
+        '204,206,301,302,400,404,429,500,503,timeout,connection error} x body kinds {proper answer, empty, null, [], {}, '
+        'placeholder object, truncated JSON, HTML} in front of a working provider for six queries, plus random 1-3 provider '
+        'configurations; a case is non-trivial when its first query step returns a value; distinct by request')
 
 H0 = 800000
 KINDS = ['ok', 'exc', 'attr', 'false', 'mal', 'skip']
@@ -254,6 +260,7 @@ def gen_cases(rng, tier):
             steps.append(step(method, arg, SETTINGS[rng.randrange(len(SETTINGS))], rng.choice([0, 0, 5, 61, 700]), provs))
         cs.append(Case('history', 'bitcoin file ' + ' '.join(steps)))
     cs += gen_xcases(rng, big)
+    cs += gen_http(rng, big)
     return cs
 
 
@@ -506,6 +513,140 @@ def gen_xcases(rng, big):
     return cs
 
 
+# ---------------------------------------------------------------- the shared HTTP layer under real client classes
+# (request format: see harness/impl/c20_impl.py, mode `http`).  Everything here is oracle-only: the model starts at the
+# provider interface, BaseClient.request lies below it.
+HTTP_STATUSES = ['200', '201', '202', '203', '204', '206', '301', '302', '400', '404', '429', '500', '503', 'T', 'C']
+HTTP_GARBAGE = ['empty', 'null', 'list', 'obj', 'queued', 'badjson', 'html']
+HTTP_METHODS = ['getrawtransaction', 'blockcount', 'estimatefee', 'sendrawtransaction', 'mempool', 'getbalance']
+HTTP_NAMES = {'bs': 0, 'mp': 1, 'sm': 2}
+
+
+def http_names(method):
+    return ['bs', 'mp'] if method == 'mempool' else ['bs', 'mp', 'sm']    # blocksmurfer answers mempool('') without a request
+
+
+def http_case(kind, method, provs):
+    return Case(kind, 'bitcoin http %s/%s' % (method, '+'.join('%s:%d:%s:%s' % p for p in provs)))
+
+
+def gen_http(rng, big):
+    cs = []
+    # one failing / odd first provider in front of a working one: every status x every body, every method
+    for method in HTTP_METHODS:
+        names = http_names(method)
+        for i, st in enumerate(HTTP_STATUSES):
+            bodies = ['ok'] + HTTP_GARBAGE if st not in ('T', 'C') else ['ok']
+            for j, body in enumerate(bodies):
+                if not big and st not in ('200', '201') and body not in ('ok', 'empty', 'queued', 'list') and (i + j) % 3:
+                    continue
+                first = names[(i + j) % len(names)]
+                second = [n for n in names if n != first][(i + 2 * j) % (len(names) - 1)]
+                cs.append(http_case('http_first', method, [(first, 20, st, body), (second, 10, '200' if j % 2 else '201', 'ok')]))
+    # random configurations of two or three providers (also nobody answering, single provider)
+    for _ in range(3000 if big else 260):
+        method = rng.choice(HTTP_METHODS)
+        names = http_names(method)
+        k = rng.choice([1, 2, 2, 3, 3])
+        chosen = rng.sample(names, min(k, len(names)))
+        prios = rng.sample([5, 10, 20, 30], len(chosen))
+        provs = []
+        for n, pr in zip(chosen, prios):
+            st = rng.choice(HTTP_STATUSES) if rng.random() < 0.75 else '200'
+            body = 'ok' if (st in ('T', 'C') or rng.random() < 0.5) else rng.choice(HTTP_GARBAGE)
+            provs.append((n, pr, st, body))
+        cs.append(http_case('http_random', method, provs))
+    return cs
+
+
+def http_expected(name, method):
+    """what the provider's documented answer format means (independent of the client code)"""
+    i = HTTP_NAMES[name]
+    if method == 'blockcount':
+        return 800000 + i
+    if method == 'getrawtransaction':
+        return '0100000001' + 'ab' * 20 + '%02x' % i
+    if method == 'sendrawtransaction':
+        return 'ab' * 31 + '%02x' % i
+    if method == 'mempool':
+        return ['d%d' % i * 32, 'e%d' % i * 32]
+    if method == 'estimatefee':       # target 3 blocks, satoshi per kB
+        return {'bs': int((11.0 + i) * 1000), 'mp': (20 + i) * 1000, 'sm': 15000 + i}[name]
+    if method == 'getbalance':
+        return 5000 + i if name == 'sm' else 9000 + i - 2000
+
+
+def http_valid(method, status, body):
+    """does this HTTP exchange carry an answer?  Only 200/201 with a body in the provider's format does."""
+    if status not in ('200', '201'):
+        return False
+    return body == 'ok' or (body == 'list' and method == 'mempool')      # an empty mempool is a proper answer
+
+
+def parse_http(req):
+    method, provs = req.split()[2].split('/')
+    ps = []
+    for t in provs.split('+'):
+        n, pr, st, body = t.split(':')
+        ps.append((n, int(pr), st, body))
+    ps.sort(key=lambda p: -p[1])
+    return method, ps
+
+
+def check_http(c, out):
+    import json as _json
+    method, ps = parse_http(c.req)
+    bad = []
+    toks = out.split(' ')
+    if out.startswith('CRASH') or out.startswith('INITERR') or len(toks) != 4:
+        return [('http_layer', 'unexpected answer %r' % out[:100])]
+    ret, R, E, C = toks[0], toks[1][2:], toks[2][2:], toks[3][2:]
+    res = [] if R == '-' else R.split(',')
+    errs = set() if E == '-' else set(E.split(','))
+    asked = [] if C == '-' else C.split(',')
+    asked_once = [n for i, n in enumerate(asked) if n not in asked[:i]]
+    answering = None
+    skipped = []
+    for n, pr, st, body in ps:
+        if http_valid(method, st, body):
+            answering = (n, body)
+            break
+        skipped.append((n, st, body))
+    # the recorded class: the library took the body of a 200/201 exchange that is not an answer as THE result (decided
+    # from the case: such a provider stands in front of the one that should have answered)
+    garbage = [n for n, st, body in skipped if st in ('200', '201')]
+    tag = 'http_ok_status_body_not_an_answer' if (len(res) == 1 and res[0] in garbage) else 'http_layer'
+    if answering is None:
+        if ret != 'FAIL':
+            bad.append((tag, '%s: no provider answered (statuses %s) but the query returned %s (results from %s)'
+                        % (method, ','.join('%s=%s/%s' % (n, st, b) for n, st, b in skipped), ret[:60], R)))
+    else:
+        n, body = answering
+        want = [] if body == 'list' else http_expected(n, method)
+        try:
+            got = _json.loads(ret.replace('_', ' '))
+            okv = got == want and type(got) == type(want)
+        except ValueError:
+            okv = False
+        if not okv or res != [n]:
+            sk = ','.join('%s=%s/%s' % x for x in skipped) or 'none'
+            bad.append((tag, '%s: %s is the first provider answering 200/201 with a proper body (skipped before it: %s); '
+                             'expected its answer %r from [%s], got %s from [%s]' % (method, n, sk, want, n, ret[:70], R)))
+        for m2 in asked_once:
+            if m2 != n and m2 not in [x[0] for x in skipped]:
+                bad.append((tag, '%s: provider %s was asked although %s had answered' % (method, m2, n)))
+    if not bad:
+        for n, st, body in skipped:
+            if n not in errs:
+                # a client that chokes on the body with an AttributeError is skipped without a record: the row-level rule
+                # "AttributeError = method missing" of the service layer, already part of the model (not an HTTP matter)
+                if st in ('200', '201'):
+                    continue
+                bad.append(('http_layer', '%s: provider %s answered %s/%s and was skipped, but no error is recorded for it (errors: %s)'
+                            % (method, n, st, body, E)))
+    return bad
+
+
 # ---------------------------------------------------------------- comparing the two sides
 def strip_extras(out):
     steps = []
@@ -515,6 +656,8 @@ def strip_extras(out):
 
 
 def same(c, impl_out, model_out):
+    if c.req.split()[1] == 'http':
+        return True         # below the provider interface: out of the model (driver answers OUT-OF-MODEL), oracle only
     return strip_extras(impl_out) == model_out
 
 
@@ -523,6 +666,8 @@ def is_trivial(c, out):
         return True
     if c.req.split()[1] in ('xfile', 'xoff'):
         return not any(o.split(' ')[0][:1] in 'XUx' for o in out.split(' ; '))
+    if c.req.split()[1] == 'http':
+        return out.split(' ')[0] in ('FAIL', 'INITERR') or out.startswith('X:')
     for s, o in zip(c.req.split()[2:], out.split(' ; ')):
         if s.startswith('seedaddr') or s.startswith('cacheinfo'):
             continue
@@ -903,6 +1048,8 @@ def check_steps(c, out):
     toks = c.req.split()
     if toks[1] in ('xfile', 'xoff'):
         return check_xsteps(c, out)
+    if toks[1] == 'http':
+        return check_http(c, out)
     net = toks[0]
     steps = [parse_step(s) for s in toks[2:]]
     obs = out.split(' ; ')
@@ -1081,7 +1228,8 @@ def _class_pred(cid):
 KNOWN_CLASSES = {}
 for _cid in ('limit_returns_false', 'getbalance_fabricates_zero', 'isspent_unspent_at_limit',
              'estimatefee_default_substituted', 'estimatefee_clamped', 'wrong_txid_relabelled',
-             'cache_index_not_chain_order', 'cache_skips_refused_transaction', 'block_pages_unordered'):
+             'cache_index_not_chain_order', 'cache_skips_refused_transaction', 'block_pages_unordered',
+             'http_ok_status_body_not_an_answer'):
     KNOWN_CLASSES[_cid] = _class_pred(_cid)
 
 
